@@ -50,8 +50,15 @@ def main():
             if c.returncode != 0:
                 print("\n".join(l[:300] for l in c.stdout.splitlines() if l.startswith(("VIOLATION", "  UNDECIDED", "  CHECKER")))[:1500])
     sh(f"git -C {wt} checkout -q -- .")
-    with open(os.path.join(HERE, "seeded", "_harmless", "last_run.json"), "w") as fd:
-        json.dump(results, fd, indent=1)
+    out = os.path.join(HERE, "seeded", "_harmless", "last_run.json")
+    try:
+        with open(out) as fd:
+            merged = json.load(fd)
+    except (OSError, ValueError):
+        merged = {}
+    merged.update(results)
+    with open(out, "w") as fd:
+        json.dump(merged, fd, indent=1, sort_keys=True)
     print("non-zero exits:", bad)
     return 1 if bad else 0
 
